@@ -7,6 +7,7 @@ import (
 
 	"github.com/Ptt-official-app/go-pttbbs/ptttype"
 	"github.com/Ptt-official-app/go-pttbbs/types"
+	"github.com/Ptt-official-app/go-pttbbs/verifhook"
 )
 
 func GetNumRecords(filename string, size uintptr) int {
@@ -462,17 +463,20 @@ func AppendRecord(filename string, data interface{}, theSize uintptr) (idx pttty
 	}
 	defer file.Close()
 
+	verifhook.Point("append.afterOpen")
 	fd := file.Fd()
 	err = GoFlock(fd, filename)
 	if err != nil {
 		return 0, err
 	}
 	defer func() { _ = GoFunlock(fd, filename) }()
+	verifhook.Point("append.afterLock")
 
 	fsize, err := file.Seek(0, io.SeekEnd)
 	if err != nil {
 		return 0, err
 	}
+	verifhook.Point("append.afterSeek")
 
 	idxInStore := ptttype.SortIdxInStore(fsize / int64(theSize))
 	offset := int64(idxInStore) * int64(theSize)
@@ -485,6 +489,7 @@ func AppendRecord(filename string, data interface{}, theSize uintptr) (idx pttty
 	if err != nil {
 		return 0, err
 	}
+	verifhook.Point("append.afterWrite")
 
 	return idxInStore.ToSortIdx(), nil
 }
